@@ -19,9 +19,20 @@ WITH_SCALE = ALL_KINDS + ('scale',)
 
 
 def edit_strategy(kinds=KINDS, p_none=1):
-    one = st.fixed_dictionaries(dict(kind=st.sampled_from(list(kinds)), s=sel, f=st.floats(0.8, 1.25)))
+    # reload: the lens is first taken through to_dict() / from_dict() (a lens that was loaded, not built: its materials and
+    # coatings are separate objects per surface), then edited
+    one = st.fixed_dictionaries(dict(kind=st.sampled_from(list(kinds)), s=sel, f=st.floats(0.8, 1.25),
+                                     reload=st.sampled_from([False, False, True])))
     from vf.gen.util import weighted
     return weighted((p_none, st.none()), (2, one))
+
+
+def maybe_reload(o, ed):
+    """the same lens after a dictionary round trip when the edit record asks for it"""
+    if ed and ed.get('reload'):
+        from optiland.optic import Optic
+        return Optic.from_dict(o.to_dict())
+    return o
 
 
 def apply_edit(o, spec, ed, keep_image_medium=False):
@@ -40,7 +51,12 @@ def apply_edit(o, spec, ed, keep_image_medium=False):
             return None
         k = cand[ed['s'] % len(cand)]
         n_new = round(1.3 + 0.6 * (f - 0.8) / 0.45, 6)
-        o.set_index(n_new, k)
+        if (ed['s'] // 7) % 2:
+            # the other public handle on an index: the optimisation / tolerancing variable
+            from optiland.optimization.variable.variable import Variable
+            Variable(o, 'index', surface_number=k, wavelength=float(o.primary_wavelength), apply_scaling=False).update(n_new)
+        else:
+            o.set_index(n_new, k)
         S[k - 1]['mat'] = glass(n_new)
         return s2
     if kind == 'radius':
@@ -116,6 +132,7 @@ def build_with_history(spec, ed, warm=None, build_fn=None, **kw):
             warm(o)
         except Exception:  # noqa  (whatever the warm-up query does on this lens is judged elsewhere)
             pass
+    o = maybe_reload(o, ed)
     s2 = apply_edit(o, spec, ed, **kw)
     if s2 is None:
         return o, spec, False
